@@ -257,6 +257,104 @@ func c02Consul(c *ctx) {
 			return
 		}
 	}
+	c02DynMixture(c, rg)
+}
+
+// c02DynMixture: one routing decision, one table. The table flips between T1 = {:P -> old} and T2 = {127.0.0.1:P ->
+// specific, :P -> generic} while clients connect to 127.0.0.1:P on the tcp-dynamic listener. T1 answers "old", T2
+// answers "specific"; "generic" is what comes out when the miss for the address is taken from T1 and the fallback for
+// the port from T2.
+func c02DynMixture(c *ctx, rg *rig) {
+	names := []string{"old", "specific", "generic"}
+	var addrs []string
+	for _, nm := range names {
+		ln, err := net.Listen("tcp", "127.0.0.1:0")
+		if err != nil {
+			c.R.Inconcl("listen: %v", err)
+			return
+		}
+		defer ln.Close()
+		addrs = append(addrs, ln.Addr().String())
+		go func(nm string) {
+			for {
+				cn, err := ln.Accept()
+				if err != nil {
+					return
+				}
+				cn.Write([]byte(nm + "\n"))
+				cn.Close()
+			}
+		}(nm)
+	}
+	port := freePort()
+	t1 := fmt.Sprintf("route add old :%d tcp://%s", port, addrs[0])
+	t2 := fmt.Sprintf("route add specific 127.0.0.1:%d tcp://%s\nroute add generic :%d tcp://%s", port, addrs[1], port, addrs[2])
+	rg.setManual(t1)
+	if err := rg.barrier(); err != nil {
+		c.R.Inconcl("barrier: %v", err)
+		return
+	}
+	target := fmt.Sprintf("127.0.0.1:%d", port)
+	if !fabioproc.WaitListening(target, 10*time.Second) {
+		c.R.Inconcl("the tcp-dynamic listener for %s did not come up", target)
+		return
+	}
+	var stop atomic.Bool
+	var wg sync.WaitGroup
+	wg.Add(1)
+	go func() {
+		defer wg.Done()
+		for i := 0; !stop.Load(); i++ {
+			if i%2 == 0 {
+				rg.setManual(t2)
+			} else {
+				rg.setManual(t1)
+			}
+			c.R.Count("dyn_mixture_table_flips", 1)
+			time.Sleep(3 * time.Millisecond)
+		}
+	}()
+	var tally [4]atomic.Int64
+	total := c.scale(c.pick(6000, 60000))
+	var next atomic.Int64
+	for g := 0; g < 8; g++ {
+		wg.Add(1)
+		go func() {
+			defer wg.Done()
+			for int(next.Add(1)) <= total {
+				cn, err := net.DialTimeout("tcp", target, 5*time.Second)
+				if err != nil {
+					tally[3].Add(1)
+					continue
+				}
+				cn.SetDeadline(time.Now().Add(5 * time.Second))
+				b, _ := io.ReadAll(cn)
+				cn.Close()
+				c.R.Eval(1)
+				switch strings.TrimSpace(string(b)) {
+				case "old":
+					tally[0].Add(1)
+				case "specific":
+					tally[1].Add(1)
+				case "generic":
+					tally[2].Add(1)
+				default:
+					tally[3].Add(1)
+				}
+			}
+			stop.Store(true)
+		}()
+	}
+	wg.Wait()
+	c.R.SetCounter("dyn_connections_answered_by_old_table", tally[0].Load())
+	c.R.SetCounter("dyn_connections_answered_by_new_table", tally[1].Load())
+	c.R.SetCounter("dyn_connections_without_answer", tally[3].Load())
+	if tally[0].Load() > 0 && tally[1].Load() > 0 {
+		c.R.Nontrivial("tcp-dynamic connections answered by both table generations")
+	}
+	if n := tally[2].Load(); n > 0 {
+		c.R.Violate("c02b:tcp-dynamic-answer-mixed-from-two-tables", fmt.Sprintf("%d of %d connections to %s were tunnelled to \"generic\": the table {:P -> old} has no route for the address, the table {127.0.0.1:P -> specific, :P -> generic} answers \"specific\"; \"generic\" takes the miss from the first and the fallback from the second (old %d, specific %d)", n, total, target, tally[0].Load(), tally[1].Load()), nil)
+	}
 }
 
 // ---------- custom backend ----------
